@@ -261,11 +261,17 @@ def gen_gammatone(run):
   for name in names_of(gammatone) + ["__call__"]:
     for bi in range(nb):
       yield (name, bi, nb, nf)
+  # the order of the sampled design (eta, default 4): every order is a cascade of stable sections with unit gain
+  for eta in (1, 2, 3):
+    for bi in range(0, nb, 2):
+      yield ("sampled", bi, nb, max(12, nf // 4), eta)
 
 
 def run_gammatone(case):
-  name, bi, nb, nf = case
+  name, bi, nb, nf = case[:4]
   design = gammatone if name == "__call__" else gammatone[name]
+  if len(case) > 4:
+    design = (lambda f_, b_, eta_=case[4]: gammatone.sampled(f_, b_, eta=eta_))
   bw = bgrid(nb)[bi]
   for f0 in fgrid(nf):
     try:
